@@ -2,6 +2,7 @@ package main
 
 import (
 	"fmt"
+	"go/constant"
 	"go/token"
 	"go/types"
 	"sort"
@@ -321,6 +322,7 @@ func checkC20(c *Ctx) {
 	R.Assumptions = []string{"pkg/server can only be type-checked for darwin/windows at the pinned commit; nothing of it is built or run here", "one goroutine runs maintainChildState"}
 	su := c.Server()
 	su.buildSSA()
+	ruleInitialPool(c, su, "C20.initial")
 
 	// ---- C20.owner
 	owners := map[string]bool{"pkg/server.ZnPMServer.maintainChildState": true, "pkg/server.NewZnPMServer": true}
@@ -804,9 +806,26 @@ func checkC20(c *Ctx) {
 		}
 	}
 	stateWrites := map[int64][]ssa.CallInstruction{}
-	for _, cs := range su.callsNamed(w, "pkg/server.ZnPMServer.writeProcState") {
-		if k, ok := cs.Common().Args[2].(*ssa.Const); ok {
-			stateWrites[k.Int64()] = append(stateWrites[k.Int64()], cs)
+	// the state reports: calls of a pkg/server function (method or plain function, whatever its name) whose last
+	// argument is one of the WORKER_STATE_ constants
+	stateVals := map[int64]bool{}
+	for _, v := range consts {
+		stateVals[v] = true
+	}
+	for _, in := range instrsOf(w) {
+		cs, ok := in.(ssa.CallInstruction)
+		if !ok {
+			continue
+		}
+		callee := cs.Common().StaticCallee()
+		args := cs.Common().Args
+		if callee == nil || callee.Pkg == nil || !strings.HasSuffix(callee.Pkg.Pkg.Path(), "pkg/server") || len(args) < 2 {
+			continue
+		}
+		if k, ok := args[len(args)-1].(*ssa.Const); ok && k.Value != nil && k.Value.Kind() == constant.Int && stateVals[k.Int64()] {
+			if b, isBasic := k.Type().Underlying().(*types.Basic); isBasic && b.Info()&types.IsInteger != 0 {
+				stateWrites[k.Int64()] = append(stateWrites[k.Int64()], cs)
+			}
 		}
 	}
 	busy, idle, stopped := stateWrites[consts["WORKER_STATE_BUSY"]], stateWrites[consts["WORKER_STATE_IDLE"]], stateWrites[consts["WORKER_STATE_STOPPED"]]
